@@ -88,6 +88,11 @@ def main():
     if not ck.replay_arg:
         outs += pipe_common.run_corpus(ck, n // 4, profiles=gen2_profiles, want={"out_model": True, "extra": liverange_lib.extra},
                                        corpus_first=False)
+        # second-generation compilations kept because they exposed something: (profile, seed, index)
+        #   gen2:cpu/0/253  third generation with another allocator: the reported arena is the fresh allocation, the kept plan needs more
+        #   gen2:pattern/0/256  fc1_after_conv: the report of the second generation leaves out the existing scratch tensor
+        for prof, sd, ix in (("gen2:cpu", 0, 253), ("gen2:pattern", 0, 256)):
+            outs.append(pipe_common._worker((sd, ix, prof, {"out_model": True, "extra": liverange_lib.extra})))
     lines, owners, extra = [], [], []
     plan_reqs, plan_owner = [], []
     for o in outs:
